@@ -45,7 +45,36 @@ func genC18(g *gen) {
 			nsteps := 3 + g.r.intn(6)
 			for s := 0; s < nsteps; s++ {
 				sv := shared[g.r.intn(len(shared))]
-				switch g.r.intn(14) {
+				switch g.r.intn(16) {
+				case 14: // a private masked tensor: lazy and physical transposition (the mask moves with the data), counting, masked iteration
+					bits := ""
+					n := 1
+					for _, d := range sh {
+						n *= d
+					}
+					for i := 0; i < n; i++ {
+						bits += []string{"0", "1"}[g.r.intn(2)]
+					}
+					mdt := dt
+					if mdt == "c128" {
+						mdt = "f64"
+					}
+					steps = append(steps, fmt.Sprintf("mnew %s %s C %s", mdt, ints(sh), bits))
+					pv := lv
+					lv++
+					if len(sh) >= 2 {
+						steps = append(steps, fmt.Sprintf("T $%d -", pv), fmt.Sprintf("transpose $%d", pv))
+					}
+					steps = append(steps, fmt.Sprintf("mdump $%d", pv), fmt.Sprintf("mq count $%d", pv), fmt.Sprintf("miter $%d Y", pv))
+				case 15: // a private copy is reshaped, transposed and materialised
+					steps = append(steps, fmt.Sprintf("clone $%d", sv))
+					pv := lv
+					lv++
+					if len(sh) >= 2 {
+						steps = append(steps, fmt.Sprintf("T $%d -", pv), fmt.Sprintf("transpose $%d", pv), fmt.Sprintf("dump $%d", pv))
+					} else {
+						steps = append(steps, fmt.Sprintf("dump $%d", pv))
+					}
 				case 10: // formatting of a shared tensor
 					steps = append(steps, fmt.Sprintf("fmt $%d %s", sv, g.r.pick(verbs)))
 				case 11: // reductions over a shared tensor
